@@ -216,6 +216,18 @@ example :
     let s := run (init .clustalo .missing 3 "protein") [.method "set_exec_dir", .start]
     s.state = .cancelled ∧ s.cleanups = 1 ∧ s.files = 0 ∧ s.cwdChanged = false ∧ s.execOther = true := by decide
 
+/-- A launch failure that is not an OSError (NUL byte in the command → ValueError) is handled the same way. -/
+example :
+    let r := step (run (init .clustalo .nulbyte 3 "protein") [.method "set_exec_dir"]) .start
+    r.2 = .err .valueError ∧ r.1.state = .cancelled ∧ r.1.cleanups = 1 ∧ r.1.files = 0 ∧ r.1.cwdChanged = false := by decide
+
+/-- A program killed by a signal after writing complete, valid output has *failed* (return code −9 ≠ 0): `join` raises,
+no result becomes readable, clean-up runs. -/
+example :
+    let r := step (run (init .muscle5 .sigkill 3 "protein") [.start, .tick]) (.join false)
+    r.2 = .err errSubprocess ∧ r.1.state = .cancelled ∧ r.1.result = none ∧ r.1.cleanups = 1 ∧
+    (step r.1 (.method "get_alignment")).2 = .err .stateError := by decide
+
 /-- Timeout on a hanging program: the child is killed. -/
 example :
     let s := run (init .mafft .hang 2 "nucleotide") [.start, .join true]
